@@ -142,6 +142,25 @@ func main() {
 			add(gen.Pair{S: []byte(narrow), T: []byte(wide + w[1])})
 		}
 	}
+	// set-style second arguments with many fold-distinct members (IndexAny / LastIndexAny / ContainsAny and whatever else treats
+	// its second argument as a set): 1..64 distinct letters, with and without a non-ASCII member (which rules out the ASCII-set
+	// fast path), against haystacks shorter and longer than twice the set, with and without a hit: any per-member bookkeeping
+	// beyond a small stack buffer shows as a heap allocation
+	letters := []rune("abcdefghijlmnopqrtuvwxyz0123456789!#$%&()*+,-./:;<=>?@[]^_{|}~")
+	for _, n := range []int{1, 2, 7, 8, 9, 15, 16, 17, 18, 31, 32, 33, 48, 64} {
+		if n > len(letters) {
+			n = len(letters)
+		}
+		for _, extra := range []string{"", "é", "\u212a", "世", "\xff"} {
+			set := string(letters[:n]) + extra
+			for _, hl := range []int{1, n, 2*len(set) + 1, 3*len(set) + 7, 200} {
+				hay := strings.Repeat("\t", hl)
+				add(gen.Pair{S: []byte(hay), T: []byte(set)})
+				add(gen.Pair{S: []byte(hay + "É"), T: []byte(set)})
+				add(gen.Pair{S: []byte(hay + string(letters[n-1])), T: []byte(set)})
+			}
+		}
+	}
 	runs := 20
 	evals, nontriv := 0, 0
 	distinct := map[string]bool{}
@@ -186,7 +205,7 @@ func main() {
 	cov := map[string]any{
 		"evaluations":         evals,
 		"distinct_nontrivial": nontriv,
-		"rule":                "every exported function x argument tuples from the embedded/random/long-needle families plus multi-kilobyte needles/haystacks and the width-mismatch corners (needle = the haystack respelled with Kelvin sign / long s / U+FFFD, 1..48 code points); Mallocs delta of 20 calls (min of 3 repeats, GOMAXPROCS=1, GC off); distinct = (function, len s, len t), non-trivial = both arguments non-empty",
+		"rule":                "every exported function x argument tuples from the embedded/random/long-needle families plus multi-kilobyte needles/haystacks and the width-mismatch corners (needle = the haystack respelled with Kelvin sign / long s / U+FFFD, 1..48 code points) and set-style second arguments with 1..64 fold-distinct members; Mallocs delta of 20 calls (min of 3 repeats, GOMAXPROCS=1, GC off); distinct = (function, len s, len t), non-trivial = both arguments non-empty",
 		"samples":             samples,
 		"functions":           perFn,
 		"max_len": func() int {
